@@ -73,7 +73,9 @@ def build_spec(name, form, modes, rot, n):
     if form == "list":
         return [param_for(name, m, rot) if m in modes else None for m in range(n)]
     if form == "dict":
-        return {int(m): param_for(name, m, rot) for m in modes}
+        # a dict is an ordered object: odd rotations insert the modes in decreasing order, as a caller may write {2: .., 0: ..}
+        order = list(modes) if rot % 2 == 0 else list(reversed(modes))
+        return {int(m): param_for(name, m, rot) for m in order}
     raise ValueError(form)
 
 
@@ -96,6 +98,12 @@ def make_tensor(shape, data, seed):
         return V.generic(shape, off, signed=False)
     if data == "negative":
         return -V.generic(shape, off, signed=False)
+    if data == "tied":  # every slice repeated: factor entries tie exactly in magnitude (sparsity cut-offs meet ties)
+        base = V.generic(tuple((d + 1) // 2 for d in shape), off, signed=True) * 2.0
+        out = base
+        for ax, d in enumerate(shape):
+            out = np.take(out, [i // 2 for i in range(d)], axis=ax)
+        return out
     if data == "lowrank":  # exactly rank-2 signed tensor (ADMM converges, early exits are exercised)
         t, _ = V.lowrank_cp(shape, 2, off, nonneg=False, integer=False)
         return t * 4.0
@@ -182,7 +190,7 @@ def bounds(tier):
     if tier == "quick":
         return {
             "shapes": [[4, 3, 4], [3, 4, 3, 3]],
-            "single_data": ["signed", "nonneg", "negative"],
+            "single_data": ["signed", "nonneg", "negative", "tied"],
             "single_ranks": [1, 2, 3],
             "single_iters": {3: [[o, i] for o in (1, 2, 5) for i in (1, 5, 10)], 4: [[1, 1], [2, 5], [5, 10]]},
             "mixed_shapes": [[4, 3, 4], [3, 4, 3, 3]],
@@ -194,7 +202,7 @@ def bounds(tier):
         }
     return {
         "shapes": [[4, 3, 4], [3, 4, 3, 3], [3, 4, 3]],
-        "single_data": ["signed", "nonneg", "negative", "lowrank"],
+        "single_data": ["signed", "nonneg", "negative", "lowrank", "tied"],
         "single_ranks": [1, 2, 3],
         "single_iters": {3: [[o, i] for o in (1, 2, 5) for i in (1, 5, 10)], 4: [[o, i] for o in (1, 2, 5) for i in (1, 5, 10)]},
         "mixed_shapes": [[4, 3, 4], [3, 4, 3, 3]],
